@@ -382,7 +382,24 @@ func (x *Exec) concretize(t *Term, what string) int64 {
 		if strings.HasPrefix(what, "index") {
 			extra = append(extra, vals[:12]...)
 		}
-		x.R.inconclusive(fmt.Sprintf("%s: more than %d feasible values for %s (case-split bound); only the values in [-2,%d]%s were explored", x.harness, x.casemax, what, x.casemax-3, map[bool]string{true: " and 12 solver-chosen ones", false: ""}[len(extra) > 0]))
+		x.R.inconclusive(fmt.Sprintf("%s: more than %d feasible values for %s (case-split bound); only the values in [-2,%d], two probes up to 4096%s were explored", x.harness, x.casemax, what, x.casemax-3, map[bool]string{true: " and 12 solver-chosen ones", false: ""}[len(extra) > 0]))
+		// two probes above the window, still small enough to be used as a length or count
+		x.sol.Push()
+		x.sol.Assert(x.tb.And(x.tb.Sle(x.tb.Const(t.sort.W, uint64(x.casemax-2)), t), x.tb.Sle(t, x.tb.Const(t.sort.W, 4096))))
+		for k := 0; k < 2; k++ {
+			x.R.feas(1)
+			if x.sol.Check() != "sat" {
+				break
+			}
+			vs, err := x.sol.GetValues([]*Term{t})
+			if err != nil {
+				break
+			}
+			c := x.tb.Const(t.sort.W, vs[0])
+			extra = append(extra, c.sval())
+			x.sol.Assert(x.tb.Not(x.tb.Eq(t, c)))
+		}
+		x.sol.Pop(1)
 		if !enumerate(true) {
 			panic(unsupported{fmt.Sprintf("more than %d feasible values for %s (case-split bound)", x.casemax, what)})
 		}
